@@ -57,3 +57,9 @@ Proof.
   vm_compute. split; [reflexivity | discriminate].
 Qed.
 Print Assumptions C09_skips_refuted_orig.
+
+(* today's tarfile.REGULAR_TYPES contains none of the link / device / directory / fifo type flags (premise of
+   C09_tar_links_devices_never_read) *)
+Theorem C09_tar_regular_types_wf : reg_types_wf TAR_REGULAR_TYPES = true.
+Proof. vm_compute. reflexivity. Qed.
+Print Assumptions C09_tar_regular_types_wf.
